@@ -21,9 +21,11 @@ import subprocess
 
 SIZES2 = [(1, 1), (2, 3), (3, 3), (4, 2), (5, 7), (16, 32), (22, 23),
           (23, 23), (24, 24), (19, 27), (32, 16), (21, 24), (2, 256),
-          (512, 1), (1, 513), (3, 171), (9, 57), (12, 43)]
+          (512, 1), (1, 513), (3, 171), (9, 57), (12, 43),
+          # more than 1024: the split of `aggregate` recurses
+          (33, 33), (34, 31)]
 SIZES3 = [(2, 2, 2), (3, 2, 4), (8, 8, 8), (8, 8, 9), (7, 9, 8), (2, 16, 16),
-          (4, 4, 33), (3, 13, 13)]
+          (4, 4, 33), (3, 13, 13), (9, 9, 9), (3, 13, 28)]
 
 
 def gen_case(rng, tier):
